@@ -210,11 +210,17 @@ def _wrap_outer_match(base):
         S.last_match = None
         out = orig(self, unmatched_instance_pair, *a, **k)
         lm = S.last_match
-        if lm is None:
-            S.ctx.count("C04.no_labelmap_captured")
-            return out
         if in_pred.size > MAX_VOX:
             S.ctx.count("skipped_size")
+            return out
+        if lm is None:
+            # the inner _match_instances call was not observed (e.g. the result came from a cache): take the
+            # assignment from the output itself -- a prediction counts as matched iff it carries a reference label
+            S.ctx.count("C04.no_labelmap_captured")
+            refl = set(int(x) for x in np.unique(in_ref) if x != 0)
+            pairs = set(zip(in_pred.ravel().tolist(), np.asarray(out.prediction_arr).ravel().tolist())) if np.asarray(out.prediction_arr).shape == in_pred.shape else set()
+            M = {i: o for i, o in pairs if i != 0 and o in refl}
+            check_relabelling(self, in_pred, in_ref, M, out)
             return out
         check_relabelling(self, in_pred, in_ref, lm["M"], out)
         return out
